@@ -57,3 +57,17 @@ Theorem C01_a2c_rows_chain : forall T scripts,
   a_rows_ok (map (fun _ => (0, 0)) scripts) (map (fun _ => false) scripts) rows /\ length rows = T.
 Proof. exact a2c_run_chain. Qed.
 Print Assumptions C01_a2c_rows_chain.
+
+(** the observation returned by the A2C collector is each environment's current observation, and two consecutive
+    rollouts (the second continued from the returned observation, as train_a2c does) are one longer rollout *)
+Theorem C01_a2c_returned_observation : forall T scripts,
+  let '(_, vs', last) := a2c_run T scripts in
+  Forall2 (fun v o => o = (e_ep (v_env v), e_t (v_env v))) vs' last.
+Proof. exact a2c_returned_observation. Qed.
+Print Assumptions C01_a2c_returned_observation.
+Theorem C01_a2c_consecutive_rollouts : forall T1 T2 vs cur,
+  let '(rows1, vs1, last1) := a2c_collect T1 vs cur in
+  let '(rows2, vs2, last2) := a2c_collect T2 vs1 last1 in
+  a2c_collect (T1 + T2) vs cur = (rows1 ++ rows2, vs2, last2).
+Proof. exact a2c_collect_app. Qed.
+Print Assumptions C01_a2c_consecutive_rollouts.
